@@ -31,11 +31,11 @@ CPP_KINDS = PY_KINDS
 # ----------------------------------------------------------------- graph preparation
 
 
-def make_graph(spec, target_name, refs=None, rewrite=True):
+def make_graph(spec, target_name, refs=None, rewrite=True, call_from=None):
     import functional_algorithms as fa
     from functional_algorithms.expr import make_apply
 
-    ctx, ex, root, syms = progs.build(spec, refs=refs)
+    ctx, ex, root, syms = progs.build(spec, refs=refs, call_from=call_from)
     args = tuple(s.reference(ref_name=s.operands[0]) for s in syms)
     name = ctx.symbol("fn").reference(ref_name="fn")
     g = make_apply(ctx, name, args, root)
@@ -514,7 +514,7 @@ def gen_cases(target):
     sorts = {"python": ("f",), "numpy": ("f32", "f64", "f16"), "cpp": ("f32", "f64")}[target]
     eu, eb = declared(target, EXTRA_UNARY), declared(target, EXTRA_BINARY)
     return st.builds(
-        lambda spec, vseed, refs, rw, debug: {"target": target, "spec": progs.prune(spec), "vseed": vseed, "refs": refs, "rewrite": rw, "debug": debug},
+        lambda spec, vseed, refs, rw, debug, cf: {"target": target, "spec": progs.prune(spec), "vseed": vseed, "refs": refs, "rewrite": rw, "debug": debug, "call_from": cf},
         progs.programs(
             main_sorts=sorts,
             max_nodes=16,
@@ -523,15 +523,16 @@ def gen_cases(target):
             allow_named=True,
             named=("largest", "smallest", "posinf", "neginf") if target != "numpy" else progs.NAMED,
             allow_xor=True,
-            mixed=False,
+            mixed=(target == "numpy"),
             np_consts=(target == "numpy"),
             extra_unary=eu,
             extra_binary=eb,
         ),
         st.integers(0, 2**31 - 1),
-        st.dictionaries(st.integers(0, 20).map(str), st.sampled_from(["a", "b", "a", "t", "x", "fn", "result", "abs_x", "v"]), max_size=4),
+        st.dictionaries(st.integers(0, 20).map(str), st.sampled_from(["a", "b", "a", "t", "a", "fn", "result", "abs_x", "a"]), max_size=5),
         st.booleans(),
         st.integers(0, 1),
+        st.one_of(st.none(), st.integers(1, 6)),
     )
 
 
@@ -539,7 +540,7 @@ def prepare_case(case):
     """returns (g, syms, violations|None)"""
     spec = case["spec"]
     try:
-        ctx, g = make_graph(spec, case["target"], refs=case["refs"], rewrite=case["rewrite"])
+        ctx, g = make_graph(spec, case["target"], refs=case["refs"], rewrite=case["rewrite"], call_from=case.get("call_from"))
     except NotImplementedError:
         return None, None, None
     except Exception as e:
@@ -559,7 +560,7 @@ def check_case(case, batch=None):
     if bad is None:
         return [], {"rejected": True}
     out = list(bad)
-    if any(c == "emitted-source-does-not-parse" for c, _ in bad):
+    if any(c in ("emitted-source-does-not-parse", "function-missing") or c.startswith("tostring-raises") for c, _ in bad):
         return out, {"rejected": False}
     if target == "cpp":
         b = cppbuild.Batch()
